@@ -289,6 +289,50 @@ func c20(p *P) {
 		}
 	}
 
+	// ---------- R3b the explore distance is clamped on ITS OWN value: lower bound min/100, upper bound max/2
+	if fn := p.fn("C20.R3", "certexchange/polling.predictor.update"); fn != nil {
+		var lo, hi []Sink
+		viaHelper := false
+		for _, fs := range fieldStores(fn, false, "predictor", "exploreDistance") {
+			v := canon(fs.Store.Val)
+			switch {
+			case re(`^\(\$0\.minInterval / 100:Duration\)$`).MatchString(v):
+				lo = append(lo, Sink{fs.Store, "exploreDistance <- min/100"})
+			case re(`^\(\$0\.maxInterval / 2:Duration\)$`).MatchString(v):
+				hi = append(hi, Sink{fs.Store, "exploreDistance <- max/2"})
+			}
+			if call, ok := fs.Store.Val.(*ssa.Call); ok {
+				if h := call.Call.StaticCallee(); h != nil && len(call.Call.Args) == 3 && isClampFunc(h) &&
+					canon(call.Call.Args[0]) == "$0.exploreDistance" && canon(call.Call.Args[1]) == "($0.minInterval / 100:Duration)" && canon(call.Call.Args[2]) == "($0.maxInterval / 2:Duration)" {
+					viaHelper = true
+				}
+				// max(min(x, hi), lo) / min(max(x, lo), hi) with the builtins
+				if strings.Contains(v, "$0.exploreDistance") && strings.Contains(v, "($0.minInterval / 100:Duration)") && strings.Contains(v, "($0.maxInterval / 2:Duration)") && (strings.HasPrefix(v, "max(") || strings.HasPrefix(v, "min(")) {
+					viaHelper = true
+				}
+			}
+		}
+		switch {
+		case len(lo) > 0 && len(hi) > 0:
+			p.guarded("C20.R3", fn, lo, cmpRel("explore distance below min/100", `^\$0\.exploreDistance$`, `^\(\$0\.minInterval / 100:Duration\)$`, RelGT))
+			p.guarded("C20.R3", fn, hi, cmpRel("explore distance above max/2", `^\$0\.exploreDistance$`, `^\(\$0\.maxInterval / 2:Duration\)$`, RelLT))
+			// and the clamp is not skipped when the distance IS out of range
+			for _, c := range []struct {
+				name string
+				rel  Rel
+				rx   string
+				s    []Sink
+			}{{"below min/100 ⇒ raised to min/100", RelLT, `^\(\$0\.minInterval / 100:Duration\)$`, lo}, {"above max/2 ⇒ lowered to max/2", RelGT, `^\(\$0\.maxInterval / 2:Duration\)$`, hi}} {
+				inj := cmpRel("", `^\$0\.exploreDistance$`, c.rx, c.rel).Match(fn)
+				r.Check(len(inj) > 0, "C20.R3", "polling.predictor.update: explore distance "+c.name, p.c.Pos(fn.Pos()), "comparison of the explore distance with its own bound", "no comparison between the explore distance and its bound — the clamp tests another variable, so the distance can decay to 0 (interval frozen) or grow without limit")
+			}
+		case viaHelper:
+			r.OK("C20.R3", "polling.predictor.update: explore distance clamped to [min/100, max/2]", p.c.Pos(fn.Pos()), "through a clamp helper / min-max builtins")
+		default:
+			r.Fail("C20.R3", "polling.predictor.update: explore distance clamped to [min/100, max/2]", p.c.Pos(fn.Pos()), "clamp stores of the explore distance not found")
+		}
+	}
+
 	// ---------- R4 CatchUp
 	if fn := p.fn("C20.R4", "certexchange/polling.Poller.CatchUp"); fn != nil {
 		sts := fieldStores(fn, false, "Poller", "NextInstance")
